@@ -110,6 +110,8 @@ def instances(tier):
     for f in scenarios():
         for sname in SCEN_SETTINGS:
             out.append(("kv", f, sname, False))
+    # witness of the known finding about atoms that relate a tree to a subtree quantified in it (first seen in the thorough tier)
+    out.append(("null", ("exists", "<A>", "a", None, "start", ("forall", "<B>", "b", None, "a", ("smt", ["=", ["v", "a"], ["v", "b"]]))), "default", False))
     for name in GRAMS:
         F = solver_formulas(name, tier)
         core = F[:: max(1, len(F) // (6 if tier == "quick" else 24))]
